@@ -269,6 +269,16 @@ class C09(Prop):
                     ops.append(mk('dec %s b%s' % (t, b.hex()), k='arity%d' % arity))
         for v in (('map', []), I(1), B(b''), ('null',), ('tag', 18, ('array', good[4]))):
             for t in self.STRUCTS: ops.append(mk('dec %s b%s' % (t, refcbor.encode(v).hex()), k='nonarray'))
+        # lists of 3..6 *distinct* nested structures: every element lands at its own index (seeded C09-r5: swap_remove reorders from 3 up)
+        for _ in range(budget(tier, 150, 3000)):
+            n = r.choice([3, 3, 4, 5, 6])
+            def rc(i, depth):
+                sub = [rc(10 * i + j, depth - 1) for j in range(r.choice([0, 3, 4]))] if depth > 0 and r.random() < 0.4 else []
+                return ('array', [B(b''), ('map', [(I(4), B(bytes([i % 256])))]), B(bytes([i % 256, 1]))] + ([('array', sub)] if sub else []))
+            rl = ('array', [rc(i + 1, 1) for i in range(n)]); sl = ('array', [('array', [B(b''), ('map', [(I(4), B(bytes([i])))]), B(bytes([i]))]) for i in range(1, n + 1)])
+            for t, v in (('CoseEncrypt', ('array', [B(b''), ('map', []), ('null',), rl])), ('CoseMac', ('array', [B(b''), ('map', []), ('null',), B(b't'), rl])),
+                         ('CoseRecipient', ('array', [B(b''), ('map', []), ('null',), rl])), ('CoseSign', ('array', [B(b''), ('map', []), ('null',), sl]))):
+                ops.append(mk('dec %s b%s' % (t, (refcbor.encode(v) if r.random() < 0.7 else g.venc(v)).hex()), k='order'))
         ops += dec_ops(g, r, budget(tier, 3000, 60000), types=self.STRUCTS, mut=0.05)
         return ops
 
@@ -317,6 +327,18 @@ class C11(Prop):
             if r.random() < 0.2: ops.append(mk('tov %s %s' % (t, x), k=t + ':value'))
         for h in ('(hdr - (crit) - b b b (cs) (rest))', '(hdr - (crit) - b b b (cs (sig (ph - (hdr - (crit) - b b b (cs) (rest))) (hdr - (crit) - b b b (cs) (rest)) b)) (rest))', '(hdr - (crit) - b b b (cs) (rest i9 N))', '(hdr A-7 (crit) - b b b (cs) (rest))'):
             ops.append(mk('isempty ' + h, k='isempty')); ops.append(mk('tobstr (ph - %s)' % h, k='tobstr')); ops.append(mk('enc CoseSign1 (sign1 (ph - %s) %s - b)' % (h, h), k='protform'))
+        # values as the decoders produce them: protected headers that carry stored wire bytes — the empty string included (what `40`
+        # decodes to) — at every carrier and as a value of their own (seeded C11-r5: re-parsing the stored bytes fails on the empty string)
+        g2 = T(seed + 7, valid=1.0, orig_p=0.6)
+        E = C02.EMPTY
+        for ph in ('(ph b %s)' % E, '(ph ba0 %s)' % E, '(ph ba10126 (hdr A-7 (crit) - b b b (cs) (rest)))', '(ph bbf0126ff (hdr A-7 (crit) - b b b (cs) (rest)))', '(ph b (hdr A-7 (crit) - b b b (cs) (rest)))'):
+            for op in ('enc', 'tov'): ops.append(mk('%s ProtectedHeader %s' % (op, ph), k='ProtectedHeader:stored'))
+            ops.append(mk('tobstr ' + ph, k='tobstr')); ops.append(mk('enc CoseSign1 (sign1 %s %s - b)' % (ph, E), k='protform'))
+            ops.append(mk('enc SuppPubInfo (supp i16 %s -)' % ph, k='SuppPubInfo'))
+        for _ in range(budget(tier, 800, 15000)):
+            t = r.choice(TYPED_TYPES); x = g2.typed(t, wild=False)
+            ops.append(mk('enc %s %s' % (t, x), k=t + ':stored'))
+            if r.random() < 0.3: ops.append(mk('tov %s %s' % (t, x), k=t + ':stored-value'))
         return ops
     def impl_pred(self, o, impl):
         # definite-length, shortest-head output and decode(encode(v)) == fill(v): strict parse by the reference codec
@@ -330,7 +352,7 @@ class C11(Prop):
 def _c11_followups(self, ops, impl):
     out = []
     for o, a in zip(ops, impl):
-        if o['op'].startswith('enc ') and a.startswith('ok b'):
+        if o['op'].startswith('enc ') and a.startswith('ok b') and 'stored' not in o['meta'].get('k', ''):     # stored bytes need not be a header at all
             t = o['op'].split(' ')[1]
             out.append(mk('chain %s %s' % (t, a[3:]), k='roundtrip:' + t, src=o['op'][:200], wire=a[4:]))
     return out
